@@ -47,8 +47,21 @@ def _copy(v):
         return copy.copy(v)
 
 
+PRELOAD = ["pel.peltool.peltool", "pel.hwdiags.parserdata", "io_drawer.dump", "io_drawer.ilog", "io_drawer.trace",
+           "io_drawer.hlog", "udparsers.m2c00.m2c00", "udparsers.oe500.oe500", "srcparsers.osrc.osrc",
+           "srcparsers.oe500.oe500", "calloutparsers.ocallouts.ocallouts"]
+
+
 def snapshot():
+    """(imports the repo's modules first: a module imported later, e.g. a plugin loaded by the code under
+    test, would otherwise not be part of the snapshot and its state could not be reset)"""
     global _snap
+    import importlib
+    for name in PRELOAD:
+        try:
+            importlib.import_module(name)
+        except Exception:
+            pass
     _snap = []
     for h in _holders():
         for k, v in list(vars(h).items()):
